@@ -498,7 +498,8 @@ func genOperandNode(rt *rapid.T) operandNode {
 				g.c++
 			}
 			per := g.c * prod(g.in)
-			g.n = (4096+per-1)/per + rapid.IntRange(0, 2).Draw(rt, "extraN")
+			target := rapid.SampledFrom([]int{4096, 4096, 8200, 16400}).Draw(rt, "bigTarget") // different sizes, so that one node's buffers can hold another's
+			g.n = (target+per-1)/per + rapid.IntRange(0, 2).Draw(rt, "extraN")
 		}
 		x := mkT(append([]int{g.n, g.c}, g.in...), smallF32s(rt, g.n*g.c*prod(g.in), 2, "x"))
 		w := mkT(append([]int{g.m, g.c}, g.k...), smallF32s(rt, g.m*g.c*prod(g.k), 1, "w"))
